@@ -109,7 +109,7 @@ pub fn op_fmt(job: &J) -> Result<J, String> {
     match aiken_lang::parser::module(&out1, kind) {
         Err(errs) => {
             let mut d = format!("{:?}", errs.first());
-            d.truncate(300);
+            crate::util::trunc(&mut d, 300);
             out["parse2"] = json!("err");
             out["parse2_detail"] = json!(d);
             out["fmt"] = json!(out1);
